@@ -52,6 +52,7 @@ func (o *orch) runReplay(rc *replayCase) {
 	o.c.Count("instructions_compared", 1<<30)
 	o.c.Count("buffers_compared", 1<<20)
 	o.c.Count("shipped_compared", 1<<20)
+	o.c.Count("emulation_self_stable", 1<<20)
 	for i := 0; i < 500; i++ {
 		o.c.Nontrivial(fmt.Sprintf("replay-%d", i))
 	}
